@@ -17,7 +17,8 @@ def S(s):
 THEOREMS = ['C04_B_expand_exact', 'C04_B_tree_tidy', 'C04_collapse_is_expand', 'C04_collapse_total',
             'C04_collapse_explicit', 'C04_collapse_none_refuted', 'C04_A_sound', 'C04_A_sound_root', 'C04_A_added_ok',
             'C04_A_sound_sentence', 'C04_A_complete_partial', 'C04_A_alg_erasure', 'C04_A_alg_families_sound',
-            'C04_A_alg_families_complete', 'C04_A_exact', 'C04_A_complete', 'C04_A_exact_gen', 'C04_A_example', 'C04_example']
+            'C04_A_alg_families_complete', 'C04_A_exact', 'C04_A_complete', 'C04_A_exact_gen', 'C04_A_example',
+            'C04_A_dynamic_erasure', 'C04_A_dynamic_sound', 'C04_A_dynamic_sound_checked', 'C04_A_dynamic_example', 'C04_example']
 GEN_DEPS = []
 RULE = ('random ambiguous grammars (<=4 non-terminals, <=3 alternatives of length <=3, ?rules, _inlined rules, aliases, '
         '[optional] with placeholders, !keep-all rules, filtered anonymous tokens, EBNF * and +), three lexers (basic, '
@@ -34,6 +35,9 @@ RULE = ('random ambiguous grammars (<=4 non-terminals, <=3 alternatives of lengt
         'inlined _rules (ambiguous intermediate node over an ambiguous inlined child, 2-3 levels, ?rules, !rules, filtered and '
         'kept tokens) x 3 lexers x placeholders on/off, same oracle and Coq comparisons; the random generator draws 20% of '
         'its acyclic grammars from the same class (gen_chain_grammar); '
+        'dyn-families stream: the same add_family log comparison for the dynamic lexers (with %ignore carry-over) against '
+        'Forest/ExplicitDynBuild on recorded regex answers, plus the local-form check of every family over the position '
+        'graph of the text; '
         'alg-families stream: every SymbolNode.add_family call of a parse (basic lexer) logged and compared as a set, '
         'with the outcome, with the instrumented executable model evaluated in Coq. '
         'non-trivial = distinct (grammar, lexer, input) whose explicit tree contains at least one _ambig')
@@ -1371,6 +1375,7 @@ def correspond(ctx):
     exotic_f6(ctx, cases, meta, defs)
     check_layer_a(ctx, acases)
     run_alg_families(ctx, ctx.scale(30, 400) * k)
+    run_dyn_families(ctx, ctx.scale(25, 300) * k)
     ctx.extra['layer_A_forests_checked'] = len(acases[0])
     # Coq: the model on the captured forests
     bad, errs = ctx.coq_bad_indices('c04', IMPORTS, 'check_case', cases, chunk=150,
@@ -1454,6 +1459,71 @@ def run_alg_families(ctx, ngrammars):
                           False, 'the set of add_family calls (or the outcome) of lark differs from the instrumented model; '
                                  'the derivation oracle holds on this case')
     ctx.extra['alg_families_cases'] = len(terms)
+
+
+def run_dyn_families(ctx, ngrammars):
+    """stream dyn-families: the add_family log and outcome of real dynamic / dynamic_complete parses (string and simple
+    regexp terminals, half of the grammars with %ignore and inputs with leading/inner/trailing ignored text, a quarter
+    ambiguous at the root) against the instrumented model Forest/ExplicitDynBuild run on oracle tables of the regex
+    engine; in the same Coq evaluation every family of the log must have the local form of dyn_forest_sound over the
+    position graph computed by re.fullmatch on slices of the text"""
+    from lark.exceptions import GrammarError
+    rng = ctx.rng
+    terms, dmeta = [], []
+    made = attempts = 0
+    while made < ngrammars and attempts < ngrammars * 30:
+        attempts += 1
+        lexer = rng.choice(['dynamic', 'dynamic_complete'])
+        opts = {'maybe_placeholders': True, 'keep_all_tokens': False}
+        chars, alpha = [], 'ab'
+        if rng.random() < 0.5:
+            if rng.random() < 0.5:
+                g, alpha = gen_root_ambig_grammar(rng, lexer), 'xy'
+            else:
+                g = gen_grammar(rng, lexer, rng.random() < 0.15)
+            g, chars = add_ignores(rng, g)
+        else:
+            g = gen_grammar(rng, lexer, rng.random() < 0.15)
+        try:
+            parser = with_timeout(lambda: make_parser(g, lexer, **opts))
+        except (GrammarError, Hang):
+            continue
+        made += 1
+        inputs = list(all_inputs(alpha, 3))
+        if chars:
+            inputs += [decorate(rng, t, chars) for t in inputs] + [rng.choice(chars)]
+        for text in inputs:
+            try:
+                code, log = parse_logged_dyn(parser, text)
+            except Hang:
+                continue
+            except Exception:
+                continue            # undocumented exceptions are judged by the other streams
+            term = coq_idcase(parser, lexer, text, code, log)
+            if term is None or len(term) > 60000:
+                continue
+            ctx.count('dyn-families', key=(g, lexer, text), nontrivial=len(log) >= 4 and code == 0,
+                      dyn_outcome=('accept' if code == 0 else 'eof' if code == 1 else 'chars'), dyn_lexer=lexer,
+                      dyn_ignored=('yes' if any(c in text for c in chars) else 'no'))
+            terms.append(term)
+            dmeta.append((g, lexer, text, opts, parser))
+    bad, errs = ctx.coq_bad_indices('c04d', IMPORTS_D, 'idcheck', terms, chunk=150)
+    for e in errs:
+        ctx.violation('correspondence:coq-eval-dyn', {'no_longer_checks': 'Coq evaluation of idcheck', 'error': e}, False, e[:300])
+    for i in bad:
+        g, lexer, text, opts, parser = dmeta[i]
+        cyclic = has_derivation_cycle(parser.rules)
+        obs = run_case(g, lexer, text, parser=make_parser(g, lexer, **opts))
+        verdict = property_verdict(parser, lexer, text, obs, cyclic)
+        if verdict:
+            ctx.violation('property-oracle:%s' % verdict[0], witness(g, lexer, text, opts), True, verdict[1])
+        else:
+            ctx.violation('correspondence:Forest/ExplicitDynBuild.idyn_parse vs xearley add_family log',
+                          dict(witness(g, lexer, text, opts), no_longer_checks='add_family calls / outcome of the dynamic parse = those of the instrumented model, each of the local form that makes the stored trees spell the text'),
+                          False, 'the set of add_family calls (or the outcome) of lark differs from the instrumented dynamic '
+                                 'model, or a family is not a derivation step over the position graph of the text; the '
+                                 'derivation oracle holds on this case')
+    ctx.extra['dyn_families_cases'] = len(terms)
 
 
 def collapse_verdict(tree):
@@ -1601,3 +1671,125 @@ def coq_icase(parser, text, code, log):
         fams.append('(%s, (%s, %s, %s))' % (label(lb), rule_term[r], opt(l), opt(rt)))
     toks = [tm(t[0]) for t in lexed]
     return '(%s, %d, %s, %d, %s)' % (L(rules), nt('start'), L(['%d' % t for t in toks]), code, L(fams))
+
+
+# ----------------------------------------------------------------------------------------------
+# round 8: the add_family log of the dynamic lexers against Forest/ExplicitDynBuild (oracle tables for the regex engine)
+# ----------------------------------------------------------------------------------------------
+IMPORTS_D = ('From LV Require Import Cfg.Grammar Earley.Spec Earley.Alg Earley.AlgCheck Earley.Dyn Earley.DynCheck '
+             'Forest.ExplicitBuild Forest.ExplicitAlgBuild Forest.ExplicitDynBuild Forest.ExplicitDynCheck.')
+
+
+def parse_logged_dyn(parser, text):
+    """as parse_logged for lexer dynamic / dynamic_complete: token nodes are labelled by (terminal, start_pos, end_pos);
+    outcome 0 accept, 1 UnexpectedEOF, 2+i UnexpectedCharacters raised by scan(i)"""
+    from lark.parsers import earley_forest, earley
+    from lark.exceptions import UnexpectedCharacters, UnexpectedEOF
+    log = []
+    calls = [0]
+    orig_add = earley_forest.SymbolNode.add_family
+    orig_pc = earley.Parser.predict_and_complete
+
+    def label(n):
+        if n.is_intermediate:
+            return ('I', n.s[0], n.s[1], n.start, n.end)
+        return ('S', str(n.s.name), n.start, n.end)
+
+    def add_family(self, lr0, rule, start, left, right):
+        lf = label(left) if left is not None else None
+        if right is None:
+            rt = None
+        elif isinstance(right, earley_forest.TokenNode):
+            tk = right.token
+            rt = ('T', str(tk.type), str(tk.type), tk.start_pos, tk.end_pos)
+        else:
+            rt = label(right)
+        log.append((label(self), rule, lf, rt))
+        return orig_add(self, lr0, rule, start, left, right)
+
+    def pc(self, i, *a, **kw):
+        calls[0] += 1
+        return orig_pc(self, i, *a, **kw)
+    earley_forest.SymbolNode.add_family = add_family
+    earley.Parser.predict_and_complete = pc
+    try:
+        try:
+            with_timeout(lambda: parser.parse(text))
+            code = 0
+        except UnexpectedEOF:
+            code = 1
+        except UnexpectedCharacters:
+            code = 2 + calls[0] - 1
+    finally:
+        earley_forest.SymbolNode.add_family = orig_add
+        earley.Parser.predict_and_complete = orig_pc
+    return code, log
+
+
+def coq_idcase(parser, lexer, text, code, log):
+    """Coq term of one idcase.  The regex engine's answers are computed here by direct calls of the parser's own
+    term_matcher: match(t, text, i) for every terminal and position, and match(t, s[:-j]) for every proper truncation of
+    that match (what complete_lex may ask)."""
+    from lark.grammar import Terminal
+    if len(text) >= 60:
+        return None
+    nts, tms = {}, {}
+
+    def nt(name):
+        return nts.setdefault(str(name), len(nts))
+
+    def tm(name):
+        return tms.setdefault(str(name), len(tms))
+
+    def sym(s):
+        return '(T %d)' % tm(s.name) if s.is_term else '(NT %d)' % nt(s.name)
+    nt('start')
+    rule_term, rules = {}, []
+    for r in parser.rules:
+        body = L([sym(x) for x in r.expansion])
+        rule_term[r] = '(mkRule %d %s)' % (nt(r.origin.name), body)
+        rules.append('(%d, %s)' % (nt(r.origin.name), body))
+    ign = [tm(name) for name in parser.ignore_tokens]
+    matcher = parser.parser.parser.term_matcher
+    mt, tt = [], []
+    for name, t in list(tms.items()):
+        term = Terminal(name)
+        for i in range(len(text)):
+            m = matcher(term, text, i)
+            if m is None:
+                continue
+            mt.append((t * 64 + i) * 64 + m.end())
+            sm = m.group(0)
+            for j in range(1, len(sm)):
+                m2 = matcher(term, sm[:-j])
+                if m2 is not None:
+                    tt.append(((t * 64 + i) * 64 + (i + len(sm) - j)) * 64 + i + m2.end())
+
+    def label(lb):
+        if lb[0] == 'I':
+            return '(NInter nat %s %d %d %d)' % (rule_term[lb[1]], lb[2], lb[3], lb[4])
+        if lb[0] == 'S':
+            return '(NSym nat %d %d %d)' % (nt(lb[1]), lb[2], lb[3])
+        return '(NTok nat %d %d %d %d)' % (tm(lb[1]), tm(lb[2]), lb[3], lb[4])
+
+    def opt(lb):
+        return 'None' if lb is None else '(Some %s)' % label(lb)
+    seen, fams = set(), []
+    for lb, r, l, rt in log:
+        k = (lb, r, l, rt)
+        if k in seen:
+            continue
+        seen.add(k)
+        fams.append('(%s, (%s, %s, %s))' % (label(lb), rule_term[r], opt(l), opt(rt)))
+    nl = lambda xs: '(' + L(['%d' % x for x in sorted(xs)]) + ')%N'
+    # the position graph of the text, by re.fullmatch on slices (no reference to what the parser or its matcher did)
+    import re
+    pats = {td.name: re.compile(td.pattern.to_regexp()) for td in parser.terminals}
+    n = len(text)
+    te = ['(%d, %d, %d)' % (t, i, j) for name, t in tms.items() if name in pats
+          for i in range(n) for j in range(i + 1, n + 1) if pats[name].fullmatch(text, i, j)]
+    ig = sorted({(i, j) for name in parser.ignore_tokens for i in range(n) for j in range(i + 1, n + 1)
+                 if pats[name].fullmatch(text, i, j)})
+    return '(%s, %d, %s, %d, %s, %s, %s, %d, %s, %s, %s)' % (
+        L(rules), nt('start'), L(['%d' % x for x in ign]), len(text), B(lexer == 'dynamic_complete'),
+        nl(mt), nl(tt), code, L(fams), L(te), L(['(%d, %d)' % p for p in ig]))
